@@ -1347,6 +1347,24 @@ def seq_chain(fn, e):
             if lb['filtered']:
                 src = _call(ITER_FN + 'filter', [src, ('loopcond', lb['push'])])
             return _call(ITER_FN + 'collect', [_call(ITER_FN + 'map', [src, ('loopbody', lb['elem'], lb['push'])])])
+    # a helper that builds and returns the sequence: its chain, in the caller's terms
+    x = e0
+    while x[0] == 'try' or (x[0] == 'payload' and x[2] in ('Ok', 'Some', 'Continue')):
+        x = strip(x[1])
+    if x[0] == 'call' and x[1] in fn.prog.fns and re.search(r'Vec<', fn.prog.fns[x[1]].raw.get('output', '')):
+        H = fn.prog.fns[x[1]]
+        vals = []
+        for ex in H.exits():
+            if ex['kind'] in ('err_own', 'err_prop', 'none', 'none_prop', 'diverge'):
+                continue
+            v = strip(ex['expr'])
+            while v[0] == 'agg' and v[1].endswith(('Result::Ok', 'Option::Some')) and v[2]:
+                v = strip(v[2][0][1])
+            vals.append(v)
+        if len(vals) == 1 and H.id != fn.id:
+            inner = seq_chain(H, vals[0])
+            if inner is not vals[0] and strip(inner) != vals[0]:
+                return subst_args(expand(H, inner, keep=lambda ty: ty.startswith('std::vec::Vec<')), x[2])
     return e
 
 
@@ -1454,6 +1472,33 @@ def value_table(fn, e, depth=0):
         X = e0[2][0]
         return [([(('discr', X), 'Some')], ('payload', X, 'Some', 0)), ([(('discr', X), 'None')], e0[2][1])]
     return [([], e0)]
+
+
+def method_family(P, root, exclude=()):
+    """`root` plus the private methods it was split into: in-crate, non-closure callees of root (and of those) that take the same
+    `&mut Self` receiver type as root and have no other caller.  Rules about what `root` does look at the whole family."""
+    recv = (root.raw.get('inputs') or [''])[0]
+    fam = [root]
+    callers = {}
+    for g in P.fns.values():
+        if g.raw.get('derived'):
+            continue
+        for c in g.calls(lambda r: r['path'] in P.fns):
+            base = re.sub(r'(::\{closure#\d+\})+$', '', g.id)
+            callers.setdefault(c['path'], set()).add(base)
+    changed = True
+    while changed:
+        changed = False
+        for g in list(fam):
+            for h in [g] + P.closures_of(g):
+                for c in h.calls(lambda r: r['path'] in P.fns):
+                    k = P.fns[c['path']]
+                    if k in fam or k.kind == 'Closure' or k.public or k.id in exclude or any(k.id.endswith(x) for x in exclude):
+                        continue
+                    if (k.raw.get('inputs') or [''])[0] == recv and recv.startswith('&mut ') and callers.get(k.id, set()) <= {re.sub(r'(::\{closure#\d+\})+$', '', x.id) for x in fam}:
+                        fam.append(k)
+                        changed = True
+    return fam
 
 
 def is_membership(P, e, depth=0):
